@@ -58,7 +58,8 @@ NAMEPOOL = ["context", "options", "ctx", "opts", "config", "cfg_2", "o",
 OPTKEYS = ["month", "model", "site", "lam", "k1", "alpha_b", "x", "n_iter"]
 INTS = [0, 1, 2, 10, 11, 12, -1, 100, 7, 21, 20200101, 1000000, -1234567,
         20200102]
-STRS = ["a", "ab", "abc", "b", "x_1", "x_10", "GR4J", "gr", "Z", "a1"]
+STRS = ["a", "ab", "abc", "b", "x_1", "x_10", "GR4J", "gr", "Z", "a1",
+        "GR", "A", "z", "gr4j", "X_1"]      # ... and names differing by case
 FLOATS = [0.5, 2.5, -1.5]
 
 
